@@ -634,9 +634,11 @@ fn run(v: &Value) -> Result<String, String> {
                 }
             }
             let keys = ["ka", "kb", "kc"];
-            // ops: 0..3 insert p, 3..6 remove p, 6..15 alias(p,k)
+            // ops: 0..3 insert p, 3..6 remove p, 6..15 alias(p,k); with "preinsert" all peers exist first and ops start at 3
+            let preinsert = v.get("preinsert").and_then(|x| x.as_bool()).unwrap_or(false);
+            let first_op = if preinsert { 3usize } else { 0usize };
             let nops = 15usize;
-            let mut seq = vec![0usize; len];
+            let mut seq = vec![first_op; len];
             let mut count = 0u64;
             loop {
                 for l in 1..=len {
@@ -649,6 +651,12 @@ fn run(v: &Value) -> Result<String, String> {
                     let mut present = [false; 3];
                     let mut owner: [Option<usize>; 3] = [None; 3];
                     let mut lists: [Vec<usize>; 3] = [vec![], vec![], vec![]];
+                    if preinsert {
+                        for p in 0..3usize {
+                            reg.insert(repe::PeerHandle::new(repe::PeerId(p as u64 + 1), Arc::new(Sink { hits: hits.clone(), id: p as u64 + 1, reg: cell.clone(), kill: ((p + 1) % 3) as u64 + 1 })));
+                            present[p] = true;
+                        }
+                    }
                     for (step, &op) in seq.iter().enumerate() {
                         if op < 3 {
                             let p = op;
@@ -705,7 +713,7 @@ fn run(v: &Value) -> Result<String, String> {
                     if i == len { return Ok(format!("{count} histories of length {len} over 3 peers x 3 keys held")); }
                     seq[i] += 1;
                     if seq[i] < nops { break; }
-                    seq[i] = 0;
+                    seq[i] = first_op;
                     i += 1;
                 }
             }
